@@ -27,6 +27,9 @@ namespace Psutil.C12
 
 /-- the exceptions a caller can see -/
 inductive Exc | noSuchProcess | zombieProcess | accessDenied | fileNotFound
+  /-- an `OSError` that no layer translates (seeded round 5: `os.stat` failing inside `path_exists_strict` with an
+      errno that its `except` clauses let through); `en` = its errno -/
+  | osError (en : Nat)
   deriving DecidableEq, Repr
 
 /-- `except (A, B): <body>` clauses of one `try`, in source order: (class names, tag of the body) -/
@@ -42,6 +45,7 @@ def catches (cls : String) : Exc → Bool
   | .accessDenied => cls == "AccessDenied" || cls == "Error" || cls == "Exception" || cls == "BaseException"
   | .fileNotFound => cls == "FileNotFoundError" || cls == "OSError" || cls == "Exception"
       || cls == "BaseException"
+  | .osError _ => cls == "OSError" || cls == "Exception" || cls == "BaseException"
 
 /-- Python tries the clauses in order: the tag of the FIRST clause naming a class of `e` -/
 def dispatch : Clauses → Exc → Option String
@@ -53,6 +57,50 @@ def allExc : List Exc := [.noSuchProcess, .zombieProcess, .accessDenied, .fileNo
 /-- the exceptions which a clause list handles with a body tagged `tag` -/
 def handledWith (cl : Clauses) (tag : String) : List Exc :=
   allExc.filter fun e => dispatch cl e == some tag
+
+/-! ## `OSError` subclasses (PEP 3151) and the `except` clauses of `path_exists_strict` (seeded round 5) -/
+
+/-- the class CPython raises an `OSError` as, chosen from its errno (`OSError.__new__`'s errnomap): the plain
+    `OSError` (ELOOP, ENAMETOOLONG, ESTALE, EIO, ENOTCONN, EOVERFLOW, …) or one of its subclasses -/
+inductive OsCls
+  | osError | fileNotFound | permission | processLookup | notADirectory | isADirectory | fileExists
+  | interrupted | childProcess | timeout | blockingIO | brokenPipe | connAborted | connRefused | connReset
+  deriving DecidableEq, Repr
+
+def OsCls.all : List OsCls :=
+  [.osError, .fileNotFound, .permission, .processLookup, .notADirectory, .isADirectory, .fileExists,
+   .interrupted, .childProcess, .timeout, .blockingIO, .brokenPipe, .connAborted, .connRefused, .connReset]
+
+def OsCls.name : OsCls → String
+  | .osError => "OSError" | .fileNotFound => "FileNotFoundError" | .permission => "PermissionError"
+  | .processLookup => "ProcessLookupError" | .notADirectory => "NotADirectoryError"
+  | .isADirectory => "IsADirectoryError" | .fileExists => "FileExistsError"
+  | .interrupted => "InterruptedError" | .childProcess => "ChildProcessError" | .timeout => "TimeoutError"
+  | .blockingIO => "BlockingIOError" | .brokenPipe => "BrokenPipeError"
+  | .connAborted => "ConnectionAbortedError" | .connRefused => "ConnectionRefusedError"
+  | .connReset => "ConnectionResetError"
+
+/-- the four subclasses of `ConnectionError` -/
+def OsCls.isConnection : OsCls → Bool
+  | .brokenPipe | .connAborted | .connRefused | .connReset => true
+  | _ => false
+
+/-- does `except cls` catch an `OSError` raised as class `c`? (`EnvironmentError` and `IOError` are aliases of
+    `OSError`; an unknown name catches nothing) -/
+def osCatches (cls : String) (c : OsCls) : Bool :=
+  cls == c.name || (c.isConnection && cls == "ConnectionError")
+    || cls == "OSError" || cls == "EnvironmentError" || cls == "IOError" || cls == "Exception"
+    || cls == "BaseException"
+
+/-- first clause naming a class of the raised `OSError`: its tag (`"false"` = `return False`, `"true"` =
+    `return True`, `"raise"` = re-raise, `"other"`); `none` = no clause catches it, it propagates -/
+def osDispatch : Clauses → OsCls → Option String
+  | [], _ => none
+  | (cls, tag) :: rest, c => if cls.any (osCatches · c) then some tag else osDispatch rest c
+
+/-- the classes which a clause list handles with a body tagged `tag` -/
+def osHandledWith (cl : Clauses) (tag : String) : List OsCls :=
+  OsCls.all.filter fun c => osDispatch cl c == some tag
 
 /-! ## configuration: literals and shape facts re-derived from the source by the translator -/
 
@@ -99,6 +147,12 @@ structure Cfg where
       the model's `guessIt` (which raises every error fallback, see there): the field exists so that `cfg_good`
       pins the fact — an obligation, not semantics. -/
   guessReraises : List Exc
+  /-- `path_exists_strict`: the classes of a failing `os.stat(path)` whose `except` clause is `return False`
+      ("nothing of that name exists") -/
+  existsFalseOn : List OsCls
+  /-- `path_exists_strict`: the classes whose clause is `return True`; every class in neither list leaves the
+      helper (no clause, or a clause that re-raises) -/
+  existsTrueOn : List OsCls
 
 /-! ## text-mode reading -/
 
@@ -182,7 +236,17 @@ inductive FsEnt
   | denied                 -- os.stat raises PermissionError
   | dir
   | file (xok : Bool)      -- regular file; `os.access(p, X_OK)`
+  /-- `os.stat` fails with errno `en`, raised by CPython as class `cls` — ENOTDIR (a parent directory was
+      replaced by a file), ELOOP, ENAMETOOLONG, ESTALE / EIO / ENOTCONN (a dead network or FUSE mount), …
+      (`absent` = ENOENT and `denied` = EACCES are the two errnos with a constructor of their own) -/
+  | unstatable (en : Nat) (cls : OsCls)
   deriving DecidableEq, Repr
+
+/-- the examination of the path is refused (`PermissionError`: EACCES / EPERM) -/
+def FsEnt.isDenied : FsEnt → Bool
+  | .denied => true
+  | .unstatable _ .permission => true
+  | _ => false
 
 structure World where
   /-- `/proc/<pid>` still exists (`os.path.lexists(f"{procfs}/{pid}")`; the files below it can be opened) -/
@@ -214,6 +278,8 @@ structure World where
 inductive RawErr
   | os (e : Err)
   | ps (e : Exc)
+  /-- an `OSError` of another class than FileNotFoundError / ProcessLookupError / PermissionError, errno `en` -/
+  | other (en : Nat)
   deriving DecidableEq, Repr
 
 deriving instance DecidableEq for Except
@@ -234,6 +300,7 @@ def isZombie (w : World) : Bool := statOk w && w.zombie
 def wrap (w : World) : Raw α → Res α
   | .ok v => .ok v
   | .error (.ps e) => .error e
+  | .error (.other en) => .error (.osError en)          -- no `except` clause of `wrap_exceptions` names its class
   | .error (.os .eacces) => .error .accessDenied
   | .error (.os .esrch) =>
     if isZombie w then .error .zombieProcess else .error .noSuchProcess
@@ -322,35 +389,66 @@ def environ (cfg : Cfg) (w : World) : Res Dict := wrap w (environRaw cfg w)
 
 /-! ## exe / cwd -/
 
-/-- `path_exists_strict`: `none` = PermissionError re-raised -/
-def existsStrict (fs : Bytes → FsEnt) (p : Bytes) : Option Bool :=
-  match fs p with
-  | .absent => some false
-  | .denied => none
-  | .dir => some true
-  | .file _ => some true
+/-- what `os.stat(p)` raises, if it fails: (class, errno) -/
+def statFailure : FsEnt → Option (OsCls × Nat)
+  | .absent => some (.fileNotFound, 2)
+  | .denied => some (.permission, 13)
+  | .unstatable en cls => some (cls, en)
+  | .dir => none
+  | .file _ => none
+
+inductive StatAns
+  | yes
+  | no
+  | raises (cls : OsCls) (en : Nat)
+  deriving DecidableEq, Repr
+
+/-- `path_exists_strict`: `try: os.stat(path)` / the `except` clauses in order / `else: return True` -/
+def existsStrict (cfg : Cfg) (fs : Bytes → FsEnt) (p : Bytes) : StatAns :=
+  match statFailure (fs p) with
+  | none => .yes
+  | some (cls, en) =>
+    if cls ∈ cfg.existsFalseOn then .no
+    else if cls ∈ cfg.existsTrueOn then .yes
+    else .raises cls en
+
+/-- an `OSError` on its way out of `readlink()`, as the `except` clauses above it classify it (by class) -/
+def escapeOf (cls : OsCls) (en : Nat) : RawErr :=
+  match cls with
+  | .permission => .os .eacces
+  | .fileNotFound => .os .enoent
+  | .processLookup => .os .esrch
+  | _ => .other en
 
 /-- `_pslinux.readlink(path)` applied to what `os.readlink` returned -/
 def readlinkClean (cfg : Cfg) (fs : Bytes → FsEnt) (t : Bytes) : Raw Bytes :=
   let path := (splitOn cfg.rlNul t).headD []
   if endsWith cfg.deletedSuffix path then
-    match existsStrict fs path with
-    | none => .error (.os .eacces)
-    | some true => .ok path
-    | some false => .ok (path.take (path.length - cfg.deletedCut))
+    match existsStrict cfg fs path with
+    | .raises cls en => .error (escapeOf cls en)
+    | .yes => .ok path
+    | .no => .ok (path.take (path.length - cfg.deletedCut))
   else .ok path
 
 def effLink (w : World) (l : LinkSt) : LinkSt := if w.dirExists then l else .err .enoent
 
-/-- `Process._readlink(path, fallback="")` -/
+/-- the `except (FileNotFoundError, ProcessLookupError)` clause of `Process._readlink(path, fallback="")` -/
+def linkGone (w : World) (e : Err) : Raw Bytes :=
+  if w.dirExists then                                  -- os.path.lexists(f"{procfs}/{pid}")
+    if isZombie w then .error (.ps .zombieProcess) else .ok []
+  else .error (.os e)
+
+/-- `Process._readlink(path, fallback="")`: the clause guards the whole of `readlink(path)`, the existence test
+    of the ` (deleted)` name included -/
 def readlinkRaw (cfg : Cfg) (w : World) (l : LinkSt) : Raw Bytes :=
   match effLink w l with
-  | .target t => readlinkClean cfg w.fs t
+  | .target t =>
+    match readlinkClean cfg w.fs t with
+    | .error (.os .enoent) => linkGone w .enoent
+    | .error (.os .esrch) => linkGone w .esrch
+    | r => r
   | .err .eacces => .error (.os .eacces)
-  | .err e =>
-    if w.dirExists then                                  -- os.path.lexists(f"{procfs}/{pid}")
-      if isZombie w then .error (.ps .zombieProcess) else .ok []
-    else .error (.os e)
+  | .err e => linkGone w e
 
 def procExe (cfg : Cfg) (w : World) : Res Bytes := wrap w (readlinkRaw cfg w w.exe)
 def cwd (cfg : Cfg) (w : World) : Res Bytes := wrap w (readlinkRaw cfg w w.cwd)
